@@ -2143,8 +2143,8 @@ func (p *produceRequest) tryAddBatch(produceVersion int32, recBuf *recBuf, batch
 				batchWireLength += uvarlen(len(recBuf.topic)) + lt + 1 + 1 // compact string len, topic, compact array len for 1 item, empty tag section after the topic
 			} else {
 				topicLength := 2 + lt + 4 // string len, topic, partition array len
-				if unknown && topicLength < 16+1+1 {
-					topicLength = 16 + 1 + 1 // we may end up writing a topic ID
+				if unknown && topicLength < 16+4+1 {
+					topicLength = 16 + 4 + 1 // we may end up writing a topic ID; as above, we pessimistically assume a 4 byte partition array len
 				}
 				batchWireLength += topicLength
 			}
